@@ -46,6 +46,7 @@ def check(ctx):
     ctx.run(r15_9, g, _independent=True)  # the marks discipline is read from the methods themselves
     ctx.run(r15_10, g)
     ctx.run(r15_11, g)
+    ctx.run(r15_12, g, _independent=True)
     ctx.not_decided += [
         "that all_components / find_component partition the nodes into the true connected components",
         "that biccs returns exactly the biconnected components and articulation points (algorithmic exactness; only the edge-stack discipline is decided)",
@@ -842,3 +843,70 @@ def r15_11(ctx, g):
                     nested = {d.name: d for d in ast.walk(f.node) if isinstance(d, ast.FunctionDef) and d is not f.node}
                     where_ok = any(isinstance(x, ast.Delete) for x in lst) or any(isinstance(c_, ast.Call) and isinstance(c_.func, ast.Name) and c_.func.id in nested and any(isinstance(y, ast.Delete) for y in ast.walk(nested[c_.func.id])) for x in lst for c_ in ast.walk(x))
     ctx.check(ok_init and ok_inc and where_ok, "R15.11", f.where(incs[0]) if incs else f.where(st), "the children of the root are counted from zero, by one, where a child of the root is finished and its component is closed", key_of(f, f"root-children:{ok_init}:{ok_inc}:{where_ok}:{len(incs)}"))
+
+
+def r15_12(ctx, g):
+    """Three ways the graph class can be used against its own grain, each read from the source of the graph module:
+    (a) a mutator that changes both endpoints (add_edge, remove_edge, remove_node) is not atomic, so a caller must not swallow an
+    exception it raises half-way (`try: add_edge(...) except AttributeError: continue` leaves the link at one end only);
+    (b) a node object is not tested for truth: the class defines `__len__` (the sequence length), so an existing node with an
+    empty sequence is falsy; (c) a sort key does not mix numbers and strings (`int(x) if x.isdigit() else x` raises TypeError
+    as soon as both kinds occur among the neighbours)."""
+    repo = ctx.repo
+    mod = g.mod
+    mutators = [g.raw[k] if hasattr(g, "raw") else getattr(g, k) for k in ("add_edge", "remove_edge", "remove_node")]
+    n = 0
+    funcs = [f for m_ in repo.modules.values() for f in m_.funcs.values()]
+    for f in funcs:
+        for t in walk_own(f.node):
+            if not isinstance(t, ast.Try):
+                continue
+            calls = [c for st in t.body for c in ast.walk(st) if isinstance(c, ast.Call) and any(same_func(repo.resolve_call(f, c), mu) for mu in mutators)]
+            if not calls:
+                continue
+            for h in t.handlers:
+                reraises = any(isinstance(x, ast.Raise) for x in ast.walk(h)) or any(isinstance(x, ast.Call) and norm(x.func) in ("sys.exit", "exit") for x in ast.walk(h))
+                if not reraises:
+                    n += 1
+                    ctx.violated("R15.12", f.where(t), f"`{norm(calls[0])[:50]}` is wrapped in a `try` whose `except {norm(h.type) if h.type is not None else ''}` carries on: the mutator changes the two endpoints one after the other, so an exception raised at the second endpoint leaves the link recorded at the first only (a neighbour that does not exist, an adjacency that is not symmetric)", key_of(f, f"mutator-exception-swallowed:{norm(calls[0].func)}"))
+    # (b) truth value of a node object
+    node_cls = None
+    for cname, cdef in mod.classes.items():
+        if cname != g.add_node.cls and any(isinstance(x, ast.FunctionDef) and x.name in ("__len__", "__bool__") for x in cdef.body):
+            node_cls = cname
+    if node_cls is not None:
+        for f in [f_ for f_ in mod.funcs.values() if f_.cls == g.add_node.cls]:
+            for x in walk_own(f.node):
+                tests = []
+                if isinstance(x, (ast.If, ast.While)):
+                    tests.append(x.test)
+                if isinstance(x, ast.IfExp):
+                    tests.append(x.test)
+                for t in tests:
+                    for e in ast.walk(t):
+                        if isinstance(e, ast.BoolOp):
+                            cand = e.values
+                        elif isinstance(e, ast.UnaryOp) and isinstance(e.op, ast.Not):
+                            cand = [e.operand]
+                        elif e is t:
+                            cand = [e]
+                        else:
+                            cand = []
+                        for c_ in cand:
+                            if isinstance(c_, ast.Subscript) and norm(c_.value) in ("self", "self.nodes") and not isinstance(c_.slice, ast.Slice):
+                                n += 1
+                                ctx.violated("R15.12", f.where(x), f"`{norm(c_)}` is tested for truth, but a {node_cls} defines __len__ (its sequence length): a node that exists and has an empty sequence (added without one, or loaded with low_memory) counts as absent", key_of(f, f"node-truthiness:{norm(c_)}"))
+    # (c) a sort key of mixed type
+    for f in mod.funcs.values():
+        for c in walk_own(f.node):
+            if isinstance(c, ast.Call) and (norm(c.func) == "sorted" or (isinstance(c.func, ast.Attribute) and c.func.attr == "sort")):
+                key = next((k.value for k in c.keywords if k.arg == "key"), None)
+                if isinstance(key, ast.Lambda) and isinstance(key.body, ast.IfExp):
+                    a_, b_ = key.body.body, key.body.orelse
+                    num = lambda e_: isinstance(e_, ast.Call) and isinstance(e_.func, ast.Name) and e_.func.id in ("int", "float")  # noqa: E731
+                    raw = lambda e_: isinstance(e_, ast.Name) and e_.id in {x.arg for x in key.args.args}  # noqa: E731
+                    if (num(a_) and raw(b_)) or (num(b_) and raw(a_)):
+                        n += 1
+                        ctx.violated("R15.12", f.where(c), f"the sort key `{norm(key.body)[:60]}` is a number for some elements and a string for others: as soon as both kinds occur (a neighbour named `3` next to `s2`) the comparison raises TypeError and every traversal of the graph fails", key_of(f, f"mixed-sort-key:{norm(key.body)[:40]}"))
+    if n == 0:
+        ctx.holds("R15.12", mod.relpath, "no swallowed exception around a two-ended mutator, no truth test of a node object, no sort key of mixed type", nontrivial=False)
